@@ -7,6 +7,7 @@ package http
 // ---- server side: token lifecycle (C08) and tunnel (C05) --------------------------------
 
 //@ func http.Handler.ServeHTTP
+//@   params h w r
 //@   props C08 C10(sweep)
 //@   sweep bounds,make,nilmem
 //@   requires @tokens h.Tokens != nil
@@ -18,6 +19,7 @@ package http
 // only as the plaintext returned by the session's Decrypt; a request that is
 // rejected here (size, missing session, decrypt failure) invalidates the token
 //@ func http.Handler.handleRequest
+//@   params h ctx w r msgType resp
 //@   props C05 C08 C02(functional) C10(sweep)
 //@   sweep bounds,make,nilmem
 //@   callsites writeResponse 1
@@ -30,6 +32,7 @@ package http
 // error responses, final messages and every failure while producing the
 // response invalidate the token; responses 65..254 leave only encrypted
 //@ func http.Handler.writeResponse
+//@   params h ctx w msgType msg resp
 //@   props C05 C08 C10(sweep)
 //@   sweep bounds,make,nilmem
 //@   callsites Respond 1
@@ -39,6 +42,7 @@ package http
 //@   ensures @final ? respType == 255 || respType == 13 || respType == 23 || respType == 33 || respType == 71 ==> invalidated(ctx) == True()
 
 //@ func http.Handler.invalidateToken
+//@   params h ctx
 //@   props C08
 //@   sweep bounds,nilmem
 //@   modifies nothing
@@ -47,27 +51,32 @@ package http
 //@   callassert WithTimeout#1: @detached u(arg0) == BackgroundCtx()
 
 //@ func http.writeErr
+//@   params w prevMsgType err
 //@   nopaths
 //@   modifies nothing
 //@   ghostset wroteerr(w) := True()
 
 //@ func http.Handler.handleError
+//@   params h ctx token
 //@   props C08
 //@   sweep bounds
 
 //@ func http.Handler.handleError$1
+//@   params w r
 //@   props C08 C10(sweep)
 //@   sweep bounds,make
 //@   ensures @inval len(token) > 0 ==> invalidated(ctx) == True()
 
 // ---- client side (C05) ---------------------------------------------------------------------------
 //@ func http.Transport.Send
+//@   params t ctx msgType msg sess
 //@   props C05 C10(sweep)
 //@   sweep bounds,make,nilmem
 //@   callassert Encode#1: @tunnel ? sess != nil ==> EncryptedBy(u(unwrap(arg1))) == u(sess)
 //@   callassert handleResponse#1: @sess u(arg2) == u(sess)
 
 //@ func http.Transport.handleResponse
+//@   params t resp sess
 //@   props C05 C10(sweep)
 //@   sweep bounds,make,nilmem
 //@   requires @request resp.Request != nil && resp.Request.URL != nil
